@@ -545,7 +545,32 @@ func weakeningsOf(x cty.Value, full bool) []cty.Value {
 		// only prefixes ending on a grapheme-cluster boundary of x: the full
 		// prefix form is a caller's promise that the string continues with a
 		// new cluster
-		for _, i := range clusterEnds(s) {
+		ends := clusterEnds(s)
+		if len(ends) > 24 {
+			// long strings: the first prefixes, the last ones, and those next to the sizes at
+			// which encoders truncate or buffers refill
+			keep := map[int]bool{}
+			for k := 0; k < 8; k++ {
+				keep[ends[k]] = true
+				keep[ends[len(ends)-1-k/2]] = true
+			}
+			for _, at := range []int{255, 256, 257, 1023, 1024, 4095, 4096, 65535, 65536} {
+				for _, e := range ends {
+					if e >= at {
+						keep[e] = true
+						break
+					}
+				}
+			}
+			var sel []int
+			for _, e := range ends {
+				if keep[e] {
+					sel = append(sel, e)
+				}
+			}
+			ends = sel
+		}
+		for _, i := range ends {
 			p := s[:i]
 			if cty.NormalizeString(p) != p || seen[p] {
 				continue
